@@ -23,6 +23,20 @@ Theorem C10_roundtrip_fp128 : forall s E M, 0 <= E < 2 ^ 15 -> 0 <= M < 2 ^ 112 
   is_nan_bits binary128 (compose binary128 s E M) = false ->
   encode binary128 (decode binary128 (compose binary128 s E M)) = compose binary128 s E M.
 Proof. exact roundtrip_binary128. Qed.
+(* float literals are the bit patterns of the equal doubles (low 29 mantissa bits zero); Ident prints
+   Float64bits(x) with those bits cleared, after SetPrec(24): the pattern survives, and the precision step
+   loses nothing because the decoded value has at most 24 significant bits *)
+Theorem C10_roundtrip_float_in_double : forall s E M, 0 <= E < 2 ^ 11 -> 0 <= M < 2 ^ 52 -> M mod 2 ^ 29 = 0 ->
+  is_nan_bits binary64 (compose binary64 s E M) = false ->
+  mask29 (encode binary64 (decode binary64 (compose binary64 s E M))) = compose binary64 s E M.
+Proof. exact float_in_double_roundtrip. Qed.
+Theorem C10_float_in_double_fits_24_bits : forall s E M, 0 <= E < 2 ^ 11 -> 0 <= M < 2 ^ 52 -> M mod 2 ^ 29 = 0 ->
+  match decode binary64 (compose binary64 s E M) with FFin _ m _ => Zpos m < 2 ^ 24 | _ => True end.
+Proof. exact float_in_double_fits_24_bits. Qed.
+Example C10_float_in_double_example :
+  mask29 (encode binary64 (decode binary64 0x3FF8000000000000)) = 0x3FF8000000000000 /\
+  0x3FF8000000000000 = compose binary64 false 0x3FF 0x8000000000000 /\ 0x8000000000000 mod 2 ^ 29 = 0.
+Proof. exact float_in_double_example. Qed.
 (* NaNs: the sign is kept, payload and signalling bit are not (KF-06) *)
 Theorem C10_nan_canonicalised : forall f, 1 < ew f -> 0 < mw f -> forall s M, 0 < M < 2 ^ mw f ->
   encode f (decode f (compose f s (emax_field f) M)) = compose f s (emax_field f) (2 ^ (mw f - 1)).
